@@ -320,7 +320,9 @@ def opResolve (f : Fam) (base r : Text) (out : String) : String × String :=
       | some t =>
         let v := verdict (firstFail [
           check (valid f "full" t) "result is not a valid URI/IRI",
-          Oracle.resolve f base r t])
+          -- the RFC target is C06's statement; other properties that run resolution (C13: both
+          -- families agree) only need validity and agreement with the model
+          (Oracle.resolve f base r t).map ("[only:C06] " ++ ·)])
         if v != "ok" && valid f "full" t && Findings.f15 base r then v ++ " [KF:F15]" else v
       | none => "FAIL " ++ out
   (m, o)
